@@ -196,6 +196,17 @@ def native_replay(rep):
     return {"confirmed": True, "observed": bad, "found_by": f"bounded ballot enumeration ({n} cases)"}
 
 
+# the electorate is managed here: one voter more / at most one fewer, weights change only for the electorate that is there
+contract(T + ".add_agent", "C06", options={"opaque_ctor": ["BioAgent"]}, raises=[], modifies=["self.colony"],
+         ensures={"one-more-voter-with-the-given-weight": "len(self.colony) == len(old(self).colony) + 1 and result.weight == weight and "
+                                                          "self.colony[len(self.colony) - 1] is result"})
+contract(T + ".set_agent_weight", "C06", raises=[],
+         loops={"for profile in self.colony": {"invariant": ["True"]}},
+         ensures={"electorate-unchanged": "len(self.colony) == len(old(self).colony)"})
+contract(T + ".remove_agent", "C06", raises=[], modifies=["self.colony"],
+         loops={"for (i, profile) in enumerate(self.colony)": {"invariant": ["len(self.colony) == len(old(self).colony)"]}},
+         ensures={"removes-at-most-one-voter": "len(self.colony) == len(old(self).colony) - (1 if result else 0)"})
+
 # "(including the emergency quorum)": the emergency front end is the THRESHOLD strategy with the caller's emergency threshold and a one-voter minimum
 contract(F + "::EmergencyQuorum.__init__", "C06", is_init=True, params={"budget": "obj:ATP_Store", "kwargs": "empty"}, raises=[],      # (**kwargs: verified for calls without extra keyword arguments)
          options={"opaque_ctor": ["BioAgent"]},
